@@ -27,8 +27,25 @@ for m in sorted(glob.glob(f"{HERE}/seeded/*/meta.json")):
     rows.append(f"| {sid} | {meta.get('property', sid.split('-')[0])} | {str(meta.get('summary',''))[:160].replace('|','/')} | {str(meta.get('needs_to_manifest',''))[:140].replace('|','/')} | {st.get('caught_by','?')} | {st.get('note','')} |")
 seeded_md = "\n".join(rows)
 
+rows = ["| property | level | engine | quick-tier bound (as built) | evals | outcome classes | other counters |", "|---|---|---|---|---|---|---|"]
+import importlib, sys
+sys.path.insert(0, HERE)
+for ev in sorted(glob.glob(f"{HERE}/evidence/C*.json")):
+    e = json.load(open(ev))
+    pid = e["property_id"]
+    try:
+        mod = importlib.import_module("verif.checks." + pid.lower())
+        eng = getattr(mod, "ENGINE", "enum")
+        bound = getattr(mod, "BOUNDS", {}).get("quick", "")
+    except Exception:
+        eng, bound = "?", ""
+    cov = e["coverage"]
+    extra = ", ".join(f"{k}={v}" for k, v in cov.items() if isinstance(v, int) and k not in ("evaluations", "distinct_nontrivial", "tasks_total", "tasks_done") and not isinstance(v, bool))
+    rows.append(f"| {pid} | {e['level']} | {eng} | {str(bound)[:300].replace('|','/')} | {cov.get('evaluations')} | {cov.get('distinct_nontrivial')} | {extra[:160]} |")
+asbuilt_md = "Generated from the evidence files of the last quick run on the committed tree.\n\n" + "\n".join(rows)
+
 s = open(f"{HERE}/DESIGN.md").read()
-for name, body in (("findings", findings_md), ("seeded", seeded_md)):
+for name, body in (("findings", findings_md), ("seeded", seeded_md), ("asbuilt", asbuilt_md)):
     b, e = f"<!-- BEGIN {name} -->", f"<!-- END {name} -->"
     if b in s:
         s = s[: s.index(b) + len(b)] + "\n" + body + "\n" + s[s.index(e):]
